@@ -645,6 +645,17 @@ func (m *shimModel) delegate(fn *ssa.Function) (*ssa.Function, *ssa.Call) {
 		_, isParam := a.(*ssa.Parameter)
 		_, isConst := a.(*ssa.Const)
 		if !isParam && !isConst {
+			// a package-level value read as it is (the refusal error of this operation), or a function named on the
+			// spot (the underlying operation as a method expression)
+			sa := throughCell(strip(a))
+			if ld, isLd := sa.(*ssa.UnOp); isLd && ld.Op == token.MUL {
+				if _, isG := ld.X.(*ssa.Global); isG {
+					continue
+				}
+			}
+			if _, isF := sa.(*ssa.Function); isF {
+				continue
+			}
 			return nil, nil
 		}
 	}
@@ -724,6 +735,15 @@ func runC08(c *Ctx) {
 		c.Saw(fr.entry)
 		c.Saw(fr.body)
 		want := name == "Unlock" // required value of the flag at effects
+		// viaSite: a parameter of a shared body denotes what this activation's call passes for it
+		viaSite := func(v ssa.Value) ssa.Value {
+			if p, isP := v.(*ssa.Parameter); isP && fr.site != nil && p.Parent() == fr.body {
+				if i := paramIndex(p); i >= 0 && i < len(fr.site.Call.Args) {
+					return throughCell(strip(fr.site.Call.Args[i]))
+				}
+			}
+			return v
+		}
 		within(fr, func(fn *ssa.Function, view *Facts) {
 			live := func(b *ssa.BasicBlock) bool { return fr.site == nil || view.At(b) != nil }
 			// Sign-like delegation: a method whose only effect is a call of another gated method needs no test of its own
@@ -834,7 +854,7 @@ func runC08(c *Ctx) {
 				okRet := idx >= 0
 				if okRet {
 					for _, lf := range w.Leaves(r.Results[idx], r) {
-						if !w.NonNil(lf.Val, lf.Facts) {
+						if !w.NonNil(viaSite(lf.Val), lf.Facts) {
 							okRet = false
 						}
 					}
@@ -868,6 +888,18 @@ func runC08(c *Ctx) {
 					val, known := lockedIn(view, r.Block())
 					if name == "List" && known && val {
 						continue
+					}
+					if idx := errorResultIndex(fn); fr.site != nil && idx >= 0 {
+						// a shared body returning one of its parameters: what this activation's call passed for it
+						allNonNil := true
+						for _, lf := range w.Leaves(r.Results[idx], r) {
+							if !w.NonNil(viaSite(lf.Val), lf.Facts) {
+								allNonNil = false
+							}
+						}
+						if allNonNil {
+							continue
+						}
 					}
 					if idx := errorResultIndex(fn); !known && idx >= 0 {
 						// decided value by value: every value that may be nil was produced with the flag known
@@ -950,6 +982,34 @@ func runC08(c *Ctx) {
 							}
 						}
 						c.Check(okBack, "R2.flip", spec.name+"|returns the guarded operation's result", w.Pos(r.Pos()), "every possibly-nil result is what the operation closure returned", spec.name+" can report success with something other than the result of the operation it hands to the guard")
+					}
+				}
+			}
+			// ... or the shared body is handed the underlying operation as a method expression and calls it on the agent:
+			// request(s.agent, passphrase) with request bound, at this activation's call, to ExtendedAgent.Lock
+			if agentCall == nil && fr.site != nil {
+				for _, call := range callsIn(fn) {
+					cc, ok := call.(*ssa.Call)
+					if !ok || cc.Call.IsInvoke() || !live(cc.Block()) || len(cc.Call.Args) != 2 {
+						continue
+					}
+					p, isP := cc.Call.Value.(*ssa.Parameter)
+					if !isP || p.Parent() != fn || paramIndex(p) >= len(fr.site.Call.Args) || !m.isLoadOfField(cc.Call.Args[0], m.fAgent) {
+						continue
+					}
+					tf, isF := throughCell(strip(fr.site.Call.Args[paramIndex(p)])).(*ssa.Function)
+					if !isF || tf.Name() != spec.name+"$thunk" {
+						continue
+					}
+					// the thunk of an interface method expression invokes that method on its first argument
+					okThunk := false
+					for _, tc := range callsIn(tf) {
+						if tcc, ok := tc.(*ssa.Call); ok && tcc.Call.IsInvoke() && tcc.Call.Method.Name() == spec.name && len(tf.Params) > 0 && tcc.Call.Value == ssa.Value(tf.Params[0]) {
+							okThunk = true
+						}
+					}
+					if okThunk {
+						agentCall = cc
 					}
 				}
 			}
@@ -1041,7 +1101,7 @@ func runC08(c *Ctx) {
 				}
 				c.Ok("R2.flip", spec.name+"|decided by the underlying agent: every other return", w.Pos(agentCall.Pos()), "returns under the passed flag test are reached through the underlying call only")
 			}
-			c.Check(innerCall != nil || (len(agentCall.Call.Args) == 1 && w.ExprIn(fr.entry, agentCall.Call.Args[0]) == "p1"), "R2.flip", spec.name+"|passphrase pass-through", w.Pos(agentCall.Pos()),
+			c.Check(innerCall != nil || (len(agentCall.Call.Args) >= 1 && len(agentCall.Call.Args) <= 2 && w.ExprIn(fr.entry, agentCall.Call.Args[len(agentCall.Call.Args)-1]) == "p1"), "R2.flip", spec.name+"|passphrase pass-through", w.Pos(agentCall.Pos()),
 				"passphrase parameter forwarded unchanged", "the passphrase handed to the underlying agent is not the method's parameter: "+w.Expr(agentCall.Call.Args[0]))
 			nStores := 0
 			for _, a := range w.FieldAccesses(m.Owner(m.fLocked), m.fLocked) {
